@@ -1,5 +1,13 @@
 ----------------------------- MODULE MCBatcher -----------------------------
 EXTENDS Batcher
-KindsPS == <<"prompt", "stalled">>
-KindsSP == <<"stalled", "prompt">>
+S(s, k) == [op |-> "sub", s |-> s, kind |-> k]
+BA(k) == [op |-> "batch", key |-> k]
+CL == [op |-> "close"]
+(* a stalled subscriber with more than buffer + 1 values outstanding (execute blocks holding the lock), one Close *)
+ProgsS3 == << <<S(1, "stalled")>>, <<BA("a"), BA("b"), BA("c")>>, <<CL>> >>
+(* a stalled and a prompt subscriber, Batch calls (distinct keys / a replaced key), one Close *)
+ProgsSP2 == << <<S(1, "stalled")>>, <<S(2, "prompt")>>, <<BA("a"), BA("b")>>, <<CL>> >>
+ProgsSP3 == << <<S(1, "stalled")>>, <<S(2, "prompt")>>, <<BA("a"), BA("b"), BA("c")>>, <<CL>> >>
+ProgsSPt == << <<S(1, "stalled"), S(2, "prompt")>>, <<BA("a"), BA("b"), BA("a")>>, <<CL>> >>
+ProgsTrace == << <<>>, <<>>, <<>>, <<>> >>      \* trace validation: up to 4 clients, their operations come from the trace
 =============================================================================
